@@ -311,7 +311,7 @@ class C15(Prop):
         kw = {'once': ('once', 'O'), 'historically': ('historically', 'H'), 'since': ('since', 'S')}
         for op in ('once', 'historically', 'since'):
             for b in ((1,) if op == 'since' else (1, 2, 3)):      # (rtamt's bounded since is quadratic in the window)
-                for conn, alias in (('and', '&'), ('or', '|')):
+                for conn, alias in (('and', '&'), ('or', '|')) * 3:
                     n = rng.randint(4, 8) if op == 'since' else rng.randint(6, 14)
                     data = dict((k, [rng.choice(lang.SMALL) for _ in range(n)]) for k in ('x', 'y'))
 
